@@ -221,7 +221,75 @@ private:"""),
                                      }},""", new="""                                     [](const auto&)
                                      {
                                          return std::tuple<tscalar, tscalar>{};
-                                     }},"""),]
+                                     }},"""),    # ---- C15
+    dict(property="C15", name="hinge-write-swapped-fields", rule="R-C15-1", file="src/wlearner/hinge.cpp",
+         old="critical(!::nano::write(stream, m_threshold) || !::nano::write(stream, static_cast<uint32_t>(m_hinge)),",
+         new="critical(!::nano::write(stream, static_cast<uint32_t>(m_hinge)) || !::nano::write(stream, m_threshold),"),
+    dict(property="C15", name="single-feature-wire-type", rule="R-C15-1", file="src/wlearner/single.cpp",
+         old="critical(!::nano::write(stream, static_cast<int64_t>(m_feature)) || !::nano::write(stream, m_tables),",
+         new="critical(!::nano::write(stream, static_cast<int32_t>(m_feature)) || !::nano::write(stream, m_tables),"),
+    dict(property="C15", name="tensor-header-failure-falls-through", rule="R-C15-4", file="include/nano/tensor/stream.h", tu="src/linear.cpp",
+         old="""        static_cast<size_t>(iscalar) != sizeof(tscalar))
+    {
+        stream.setstate(std::ios_base::failbit);
+        return stream;
+    }""", new="""        static_cast<size_t>(iscalar) != sizeof(tscalar))
+    {
+        stream.setstate(std::ios_base::failbit);
+    }"""),
+    dict(property="C15", name="tensor-hash-not-compared", rule="R-C15-4", file="include/nano/tensor/stream.h", tu="src/linear.cpp",
+         old="""    if (!::nano::read(stream, tensor.data(), tensor.size()) || // content
+        ihash != detail::hash(tensor.data(), tensor.size()))""", new="""    if (!::nano::read(stream, tensor.data(), tensor.size())) // content"""),
+    dict(property="C15", name="tensor-rank-not-compared", rule="R-C15-4", file="include/nano/tensor/stream.h", tu="src/linear.cpp",
+         old="iversion != detail::hash_version() || static_cast<size_t>(irank) != trank ||", new="iversion != detail::hash_version() ||"),
+    dict(property="C15", name="dtree-reader-drops-check", rule="R-C15-3", file="src/wlearner/dtree.cpp",
+         old="""    if (!::nano::read_cast<int32_t>(stream, node.m_feature) || !::nano::read(stream, node.m_threshold) ||
+        !::nano::read_cast<uint32_t>(stream, node.m_next) || !::nano::read_cast<int32_t>(stream, node.m_table))
+    {
+        stream.setstate(std::ios_base::failbit); // LCOV_EXCL_LINE
+    }""", new="""    ::nano::read_cast<int32_t>(stream, node.m_feature);
+    ::nano::read(stream, node.m_threshold);
+    ::nano::read_cast<uint32_t>(stream, node.m_next);
+    ::nano::read_cast<int32_t>(stream, node.m_table);"""),
+    dict(property="C15", name="stump-threshold-not-written", rule="R-C15-1", file="src/wlearner/stump.cpp",
+         old="""    critical(!::nano::write(stream, m_threshold), "stump weak learner: failed to write to stream!");
+""", new=""),
+    dict(property="C15", name="gboost-prototypes-not-serialised", rule="R-C15-2", file="src/gboost/model.cpp",
+         old="""    critical(!::nano::read(stream, m_bias) || !::nano::read(stream, m_wlearners) || !::nano::read(stream, m_prototypes),
+             "gboost: failed to read from stream!");""", new="""    critical(!::nano::read(stream, m_bias) || !::nano::read(stream, m_wlearners), "gboost: failed to read from stream!");"""),
+    dict(property="C15", name="parameter-range-min-max-swapped-on-read", rule="R-C15-1", file="src/parameter.cpp",
+         old="return parameter_t::range_t<tscalar>{value, min, max, make_comp(minLE), make_comp(maxLE)};",
+         new="return parameter_t::range_t<tscalar>{value, max, min, make_comp(minLE), make_comp(maxLE)};"),
+    dict(property="C15", name="parameter-tags-crossed", rule="R-C15-1", file="src/parameter.cpp",
+         old="""                          [&](const iprange_t& param) { ::write(m_name, stream, 3, param); },
+                          [&](const fprange_t& param) { ::write(m_name, stream, 4, param); },""",
+         new="""                          [&](const iprange_t& param) { ::write(m_name, stream, 4, param); },
+                          [&](const fprange_t& param) { ::write(m_name, stream, 3, param); },"""),
+    dict(property="C15", name="version-check-after-parameters", rule="R-C15-5", file="src/configurable.cpp",
+         old="""    critical(m_major_version > nano::major_version ||
+                 (m_major_version == nano::major_version && m_minor_version > nano::minor_version) ||
+                 (m_major_version == nano::major_version && m_minor_version == nano::minor_version &&
+                  m_patch_version > nano::patch_version),
+             "configurable: version mismatch!");
+
+    critical(!::nano::read(stream, m_parameters), "configurable: failed to read from stream!");""",
+         new="""    critical(!::nano::read(stream, m_parameters), "configurable: failed to read from stream!");
+
+    critical(m_major_version > nano::major_version ||
+                 (m_major_version == nano::major_version && m_minor_version > nano::minor_version) ||
+                 (m_major_version == nano::major_version && m_minor_version == nano::minor_version &&
+                  m_patch_version > nano::patch_version),
+             "configurable: version mismatch!");"""),
+    dict(property="C15", name="vector-resize-before-size-check", rule="R-C15-3", file="include/nano/core/stream.h", tu="src/linear.cpp",
+         old="""    uint64_t size = 0;
+    if (!read(stream, size))
+    {
+        return stream;
+    }
+
+    values.resize(size);""", new="""    uint64_t size = 0;
+    read(stream, size);
+    values.resize(size);"""),]
 
 BENIGN = [
     dict(property="C07", name="lemarechal-swap-operands", file="src/lsearchk/lemarechal.cpp",
@@ -259,4 +327,24 @@ BENIGN = [
                  !::check(param.m_mincomp, param.m_min, value),"""),
     dict(property="C19", name="default-changed-inside-domain", file="src/lsearchk.cpp",
          old='make_integer("lsearchk::max_iterations", 1, LE, 128, LE, 10000)', new='make_integer("lsearchk::max_iterations", 1, LE, 256, LE, 10000)'),
+    dict(property="C15", name="tensor-header-split-conditions", file="include/nano/tensor/stream.h",
+         old="""        iversion != detail::hash_version() || static_cast<size_t>(irank) != trank ||
+        static_cast<size_t>(iscalar) != sizeof(tscalar))
+    {
+        stream.setstate(std::ios_base::failbit);
+        return stream;
+    }""", new="""        iversion != detail::hash_version() || static_cast<size_t>(irank) != trank)
+    {
+        stream.setstate(std::ios_base::failbit);
+        return stream;
+    }
+    if (static_cast<size_t>(iscalar) != sizeof(tscalar))
+    {
+        stream.setstate(std::ios_base::failbit);
+        return stream;
+    }"""),
+    dict(property="C15", name="learner-read-two-criticals", file="src/learner.cpp",
+         old="""    critical(!::nano::read(stream, m_inputs) || !::nano::read(stream, m_target),
+             "learner: failed to read from stream!");""", new="""    critical(!::nano::read(stream, m_inputs), "learner: failed to read from stream!");
+    critical(!::nano::read(stream, m_target), "learner: failed to read from stream!");"""),
 ]
